@@ -216,5 +216,48 @@ def r5_round_robin(chk: Check) -> None:
     chk.expect(phas("next(islice(cycle($v), $i, None))", pc.node), "C17.R5", pc, "idx-th variant of every parameter (cycled)", "selection shape not recognised", pc.loc())
 
 
+def r6_presence_by_membership(chk: Check) -> None:
+    chk.rule("C17.R6", "presence of a single `example` is decided by KEY MEMBERSHIP (`field in definition`), never by the value (`definition.get(field) is not None` / truthiness): `example: null` (and false / 0 / \"\") are examples that must be sent", floor=3)
+    import re
+
+    P = chk.project
+    mod = P.module(EX)
+    single = lambda e: bool(re.search(r"example(?!s)", unparse(e, 80)))  # noqa: E731
+    n = 0
+    for fn in mod.functions.values():
+        # membership tests on a single-example field: the accepted idiom
+        for t in [x for x in walk_body(fn.node) if isinstance(x, ast.Compare) and len(x.ops) == 1 and isinstance(x.ops[0], ast.In) and single(x.left)]:
+            n += 1
+            chk.ok("C17.R6", fn, f"`{unparse(t, 60)}`", "membership", fn.loc(t))
+        # value tests: X.get(<single example field>) compared with None / used as a condition
+        for c in [x for x in body_calls(fn, into_nested=True) if last_attr(x) == "get" and x.args and single(x.args[0]) and len(x.args) == 1]:
+            n += 1
+            p_ = parent(c)
+            st = stmt_of(c)
+            tested = None
+            if isinstance(p_, ast.Compare) and any(isinstance(o, (ast.Is, ast.IsNot)) for o in p_.ops):
+                tested = p_
+            elif isinstance(p_, (ast.If, ast.IfExp, ast.While)) and p_.test is c:
+                tested = p_.test
+            elif isinstance(p_, ast.BoolOp) or (isinstance(p_, ast.UnaryOp) and isinstance(p_.op, ast.Not)):
+                tested = p_
+            elif isinstance(st, ast.Assign) and st.value is c and isinstance(st.targets[0], ast.Name):
+                v = st.targets[0].id
+                for y in walk_body(fn.node):
+                    if isinstance(y, ast.Compare) and is_var(y.left, v) and any(isinstance(o, (ast.Is, ast.IsNot)) for o in y.ops) and isinstance(y.comparators[0], ast.Constant) and y.comparators[0].value is None:
+                        tested = y
+                    elif isinstance(y, (ast.If, ast.IfExp)) and (is_var(y.test, v) or (isinstance(y.test, ast.UnaryOp) and is_var(y.test.operand, v))):
+                        tested = y.test
+            construct = f"`{unparse(c, 60)}` is not used to decide whether an example exists"
+            if tested is not None:
+                chk.violation("C17.R6", fn, construct,
+                              f"whether the example exists is decided by its VALUE (`{unparse(tested, 60)}`): a documented `example: null` is treated as 'no example' - it is never sent, a required property gets generated data instead, and an operation whose only example is null is reported as 'No examples in schema'",
+                              fn.loc(c))
+            else:
+                chk.ok("C17.R6", fn, construct, "value is used, not tested", fn.loc(c))
+    if n < 3:
+        chk.undecided("C17.R6", "<discovery>", f"sites={n}", "fewer example-presence tests than confirmed by hand (3)")
+
+
 def rules(tier: str) -> list:  # type: ignore[type-arg]
-    return [r1_marks, r2_invalid_headers, r3_sibling_sources, r4_explicit_containers, r5_round_robin]
+    return [r1_marks, r2_invalid_headers, r3_sibling_sources, r4_explicit_containers, r5_round_robin, r6_presence_by_membership]
